@@ -12,6 +12,7 @@ AST (plain dicts so that a case can be dumped into a replay directory):
   spec   := {"r":"exact","v":n} | {"r":"bounds","start":a|None,"end":b|None,"incl":bool}
 """
 import json
+import zlib
 import os
 import random
 
@@ -440,10 +441,12 @@ def write_project(project, root, fmt="json", rng=None, surface=None, shuffle=Fal
         if shuffle:
             plain = shuffle_plain(plain, rng)
         plains[(ns, loc)] = plain
+        # a YAML file may carry either of the two documented extensions, file by file
+        ext = EXT[fmt] if fmt != "yaml" else ("yml" if zlib.crc32(repr((ns, loc, len(project["data"]))).encode()) % 2 else "yaml")
         if ns is None:
-            path = os.path.join(ldir, loc + "." + EXT[fmt])
+            path = os.path.join(ldir, loc + "." + ext)
         else:
-            path = os.path.join(ldir, loc, ns + "." + EXT[fmt])
+            path = os.path.join(ldir, loc, ns + "." + ext)
         os.makedirs(os.path.dirname(path), exist_ok=True)
         with open(path, "w", encoding="utf-8", newline="") as f:
             f.write(serialize(plain, fmt, rng))
@@ -604,7 +607,12 @@ def plural_suffix_clash(name):
     return base != "" and suf in FORMS
 
 
+# ordinary keys whose names end in a plural suffix word but have no sibling form: they stay ordinary keys
+LONE_SUFFIX_KEYS = ["the_other", "any_one", "very_few", "so_many", "number_two", "ground_zero", "rank_ordinal_other", "place_ordinal_one"]
+
+
 def gen_key_names(rng, n, pool=None):
+    pool_is_default = pool is None or pool is KEY_POOL or list(pool) == KEY_POOL
     pool = list(pool or KEY_POOL)
     rng.shuffle(pool)
     names = []
@@ -617,6 +625,8 @@ def gen_key_names(rng, n, pool=None):
         names.append(k)
         if len(names) == n:
             break
+    if pool_is_default and names and rng.random() < 0.3:
+        names[rng.randrange(len(names))] = pick(rng, LONE_SUFFIX_KEYS)
     return names
 
 
